@@ -57,7 +57,7 @@ assert NC % 2 == 1, 'NC must be odd: every shard (8/16 workers) has to meet ever
 
 PATTERNS = ['AB', 'ABA', 'ABCA', 'ABAB']
 TWO_VALUED = {'velocities', 'header'}            # aspects with only two values: C is A again
-FRESH_MOD, FRESH_RES = 17, 7                     # every 17th case: last call compared with a fresh process
+FRESH_MOD, FRESH_RES = 23, 7                     # every 23rd case (coprime with NC and the shard counts): last call compared with a fresh process
 
 # sub-styles that may be combined freely in "hybrid" (template and smd are left out: their published
 # Atoms layouts differ between manual editions, and a hybrid line has no per-style comment to tell which)
